@@ -218,7 +218,7 @@ inductive Out where
   | ok | err | dup
   | handled (hid : Option Nat) (deadline : Nat) (rx : Nat)
   | sent | late | skip
-deriving Repr
+deriving DecidableEq, Repr
 
 /-! ## helpers -/
 
